@@ -11,7 +11,7 @@ CLAUSES = ["C17.noraise", "C17.guard", "C17.newack", "C17.fr", "C17.inflate", "C
 RULE = ("every history of <= D network events at a real TCPPacketGenerator whose output is a tap: new ACK advancing 1|2|3 "
         "segments (bounded by what is outstanding) with RTT sample 0.5|1|3, duplicate ACK, clock +0.5, advance to the next "
         "retransmission-timer expiry; TCPReno from (cwnd, ssthresh) in {(512,65535),(1024,1024),(2048,1024),(1536,1100),(300 MSS,400 MSS)} and "
-        "TCPCubic from its defaults and after a loss; the kernel is run to quiescence at the instant of every event; "
+        "TCPCubic from its defaults and after a loss; plus a 600-MSS window in congestion avoidance and RTT samples of 64 s; the kernel is run to quiescence at the instant of every event; "
         "non-trivial = the history contains a third duplicate ACK, a timer expiry, or congestion avoidance; distinct = distinct "
         "(start state, history, window trajectory)")
 ASSUMPTIONS = [
@@ -36,6 +36,10 @@ def plan(tier, seed):
     cfgs.append(dict(cc="cubic", depth=d))
     cfgs.append(dict(cc="cubic", depth=d, pre=["dup", "dup", "dup", ("new", 1, 1), ("new", 1, 1)]))
     cfgs.append(dict(cc="reno", cwnd=4096, ssthresh=1024, depth=d, pre=["dup", "dup", "dup"]))
+    # congestion avoidance above MSS*MSS bytes (the per-ACK increment falls below one byte); RTT samples of a minute
+    cfgs.append(dict(cc="reno", cwnd=600 * 512, ssthresh=1024, depth=d - 3))
+    cfgs.append(dict(cc="reno", cwnd=1024, ssthresh=1024, depth=d - 1, rtts=[1, 64]))
+    cfgs.append(dict(cc="cubic", depth=d - 1, rtts=[1, 64]))
     # RTT samples of exactly 0 (zero-delay paths)
     cfgs.append(dict(cc="cubic", depth=d - 1, pre=["dup", "dup", "dup", ("new", 1, 0), ("new", 1, 0)], rtt0=1))
     cfgs.append(dict(cc="reno", cwnd=1024, ssthresh=1024, depth=d - 1, rtt0=1))
@@ -306,7 +310,7 @@ def execute(ch, cfg):
         n = 0
         while n < cfg["depth"] and not bad:
             outstanding = (ref.next_seq - ref.last_ack) // MSS
-            menu = [("new", k, r) for k in (1, 2, 3) if k <= outstanding for r in (RTTS0 if cfg.get("rtt0") else RTTS)] + ["dup", "clock"] + (["expiry"] if ref.timers else [])
+            menu = [("new", k, r) for k in (1, 2, 3) if k <= outstanding for r in (cfg["rtts"] if cfg.get("rtts") else (RTTS0 if cfg.get("rtt0") else RTTS))] + ["dup", "clock"] + (["expiry"] if ref.timers else [])
             c = ch.choose(len(menu) + 1, lambda c: "event %s" % ("end" if c == 0 else (menu[c - 1],)), free=True)
             if c == 0:
                 break
